@@ -72,6 +72,19 @@ type Case struct {
 	NextID int64 `json:"nextid,omitempty"`
 	// Search != nil: the history is not listed; it is regenerated from this recipe (long search legs)
 	Search *Spec `json:"search,omitempty"`
+	// Obj: what the started timers carry as their Runnable (see objects.go). "" = a fresh *probe per start;
+	// "task" = a fresh *sched.Task per start; "shared:k" = k *sched.Task objects, start number s carries object
+	// s mod k (several pending timers share ONE object, and an object is used again after its timer was delivered
+	// or cancelled); "value" / "func" = uncomparable dynamic types. Deliveries of a shared object are judged by
+	// count (which of its timers a delivery belongs to is not observable on Chan()).
+	Obj string `json:"obj,omitempty"`
+	// Consume: the harness behaves like a real consumer of Chan(): it calls Run() on every Runnable it receives
+	Consume bool `json:"consume,omitempty"`
+	// Ctor != "": the scheduler is built by a PUBLIC constructor and put under the synchronous driver afterwards:
+	// "default" = NewDefaultHHWheelTimer / NewDefaultTimerQueue, "new" = NewHHWheelTimer / NewTimerQueue(TickNs, UnitNs)
+	Ctor   string `json:"ctor,omitempty"`
+	TickNs int64  `json:"tick_ns,omitempty"`
+	UnitNs int64  `json:"unit_ns,omitempty"`
 }
 
 func (c Case) Header() string {
@@ -84,6 +97,25 @@ func (c Case) Header() string {
 type probe struct{ serial int }
 
 func (p *probe) Run() error { return nil }
+
+// Config describes the construction of the scheduler and the Runnables, for messages and case keys ("" = the driver's
+// own 1 ms / 1 ms scheduler with a fresh *probe per start).
+func (c Case) Config() string {
+	s := ""
+	switch c.Ctor {
+	case "default":
+		s += " built by the Default constructor"
+	case "new":
+		s += fmt.Sprintf(" built by the public constructor with tickInterval=%v timeUnit=%v", time.Duration(c.TickNs), time.Duration(c.UnitNs))
+	}
+	if c.Obj != "" {
+		s += " runnables=" + c.Obj
+	}
+	if c.Consume {
+		s += " consumer-calls-Run"
+	}
+	return s
+}
 
 // driver is what H1 offers for either scheduler.
 type driver interface {
@@ -107,19 +139,45 @@ type Real struct {
 	capReq int
 	Live   bool
 	PrePositioned bool // Case.NextID was applied
+	objs   objects
 	// Watchdog > 0: every op runs under a deadline (a tick that never returns is a finding, not a stuck harness)
 	Watchdog time.Duration
 }
 
 func NewReal(c Case, cbuf int) *Real {
 	r := &Real{c: c, CapC: cbuf, capReq: sched.PendingQueueCapacity, Live: c.Live}
+	r.objs = newObjects(c.Obj)
 	if c.Sched == "wheel" {
-		r.w = sched.NewVerifWheel(cbuf)
+		if c.Ctor == "" {
+			r.w = sched.NewVerifWheel(cbuf)
+		} else {
+			// a wheel built by a public constructor; the driver's step functions work on any wheel value
+			var t sched.Timer
+			if c.Ctor == "default" {
+				t = sched.NewDefaultHHWheelTimer()
+			} else {
+				t = sched.NewHHWheelTimer(time.Duration(c.TickNs), time.Duration(c.UnitNs))
+			}
+			wt := t.(*sched.HHWheelTimer)
+			wt.C = make(chan sched.Runnable, cbuf) // nobody reads C while the synchronous worker step runs
+			r.w = &sched.VerifWheel{T: wt}
+		}
 		r.w.SetPosition(c.Pos)
 		r.w.SetTime(c.Time)
 		r.d, r.t = r.w, r.w.T
 	} else {
 		r.q = sched.NewVerifQueue(cbuf)
+		if c.Ctor != "" {
+			// what the public constructor built, under the virtual clock registered for this queue's address
+			var t sched.Timer
+			if c.Ctor == "default" {
+				t = sched.NewDefaultTimerQueue()
+			} else {
+				t = sched.NewTimerQueue(time.Duration(c.TickNs), time.Duration(c.UnitNs))
+			}
+			*r.q.Q = *t.(*sched.TimerQueue) // (a fresh, never started queue: its mutex and wait group are idle; go vet's copylocks note is expected)
+			r.q.Q.C = make(chan sched.Runnable, cbuf)
+		}
 		r.q.SetTime(c.Time)
 		r.d, r.t = r.q, r.q.Q
 	}
@@ -175,12 +233,28 @@ func (r *Real) Close() {
 }
 
 // Fired is one delivery observed on Chan(): the serial of the start call it belongs to.
+// (a shared object cannot name the start call: it is reported as its group label, see objects.go)
 func (r *Real) drain() []int {
 	var out []int
 	for _, x := range r.d.Drain() {
-		if p, ok := x.(*probe); ok {
-			out = append(out, p.serial)
-		} else {
+		out = append(out, r.objs.serialOf(x))
+		if r.c.Consume && x != nil {
+			x.Run() // a real consumer runs what it receives (a panic here is caught by the op's Guard)
+		}
+	}
+	return out
+}
+
+// firedIDs turns what drain returned into the ids the scheduler gave those start calls (group labels stay).
+func (r *Real) firedIDs(ser []int) []int {
+	var out []int
+	for _, s := range ser {
+		switch {
+		case s >= 0 && s < len(r.ids):
+			out = append(out, r.ids[s])
+		case s <= groupBase:
+			out = append(out, s)
+		default:
 			out = append(out, -1)
 		}
 	}
@@ -193,7 +267,9 @@ func (r *Real) idsOf(serials []int) string {
 	}
 	parts := make([]string, len(serials))
 	for i, s := range serials {
-		if s < 0 || s >= len(r.ids) {
+		if s <= groupBase {
+			parts[i] = "g" + strconv.Itoa(groupBase-s)
+		} else if s < 0 || s >= len(r.ids) {
 			parts[i] = "?"
 		} else {
 			parts[i] = strconv.Itoa(r.ids[s])
@@ -232,7 +308,8 @@ func (r *Real) doInner(o Op) Obs {
 			ob.Out, ob.Refuse = "full", true
 			return ob
 		}
-		pr := &probe{serial: len(r.ids)}
+		serial := len(r.ids)
+		pr := r.objs.make(serial)
 		r.ids = append(r.ids, 0)
 		var id int
 		if o.K == "after" {
@@ -240,7 +317,7 @@ func (r *Real) doInner(o Op) Obs {
 		} else {
 			id = r.t.RunEvery(int(o.A), pr)
 		}
-		r.ids[pr.serial] = id
+		r.ids[serial] = id
 		ob.ID = id
 		ob.Out = "id=" + strconv.Itoa(id)
 	case "cancel":
@@ -291,7 +368,8 @@ func (r *Real) do(o Op) Obs {
 				ob.Out, ob.Refuse = "full", true
 				return
 			}
-			pr := &probe{serial: len(r.ids)}
+			serial := len(r.ids)
+			pr := r.objs.make(serial)
 			r.ids = append(r.ids, 0)
 			var id int
 			if o.K == "after" {
@@ -299,7 +377,7 @@ func (r *Real) do(o Op) Obs {
 			} else {
 				id = r.t.RunEvery(int(o.A), pr)
 			}
-			r.ids[pr.serial] = id
+			r.ids[serial] = id
 			ob.ID = id
 			ob.Out = "id=" + strconv.Itoa(id)
 		case "cancel":
@@ -342,13 +420,7 @@ func (r *Real) do(o Op) Obs {
 				r.q.Tick()
 			}
 			ser := r.drain()
-			for _, s := range ser {
-				if s >= 0 && s < len(r.ids) {
-					ob.Fired = append(ob.Fired, r.ids[s])
-				} else {
-					ob.Fired = append(ob.Fired, -1)
-				}
-			}
+			ob.Fired = r.firedIDs(ser)
 			ob.Out = "fired=" + r.idsOf(ser)
 		case "ladvance":
 			if !r.Live {
@@ -368,13 +440,7 @@ func (r *Real) do(o Op) Obs {
 				r.q.Tick()
 			}
 			ser := r.drain()
-			for _, s := range ser {
-				if s >= 0 && s < len(r.ids) {
-					ob.Fired = append(ob.Fired, r.ids[s])
-				} else {
-					ob.Fired = append(ob.Fired, -1)
-				}
-			}
+			ob.Fired = r.firedIDs(ser)
 			ob.Out = "fired=" + r.idsOf(ser)
 		case "clock":
 			if r.q != nil {
@@ -425,13 +491,7 @@ func (r *Real) liveBurst(o Op, ob *Obs) {
 		})
 	}()
 	var ser []int
-	take := func(x sched.Runnable) {
-		if p, ok := x.(*probe); ok {
-			ser = append(ser, p.serial)
-		} else {
-			ser = append(ser, -1)
-		}
-	}
+	take := func(x sched.Runnable) { ser = append(ser, r.objs.serialOf(x)) }
 	settle := 150 * time.Microsecond
 	lastProgress := time.Now()
 	k := 0
@@ -505,13 +565,7 @@ func (r *Real) liveBurst(o Op, ob *Obs) {
 	if pan != "" {
 		panic(pan)
 	}
-	for _, s := range ser {
-		if s >= 0 && s < len(r.ids) {
-			ob.Fired = append(ob.Fired, r.ids[s])
-		} else {
-			ob.Fired = append(ob.Fired, -1)
-		}
-	}
+	ob.Fired = r.firedIDs(ser)
 	ob.Out = "fired=" + r.idsOf(ser)
 }
 
